@@ -708,6 +708,21 @@ def analyse_start(o):
 # ---------------------------------------------------------------------------
 # Verdicts and evidence
 
+def _within_active_phase(o, line):
+    """The generator's bound of every hold presupposes that nothing is stuck. Once the run is past the bound of its
+    whole duration (watchdog - 1000) somebody waits for ever, entries with waiters do go stale, and their deletion is
+    a consequence of the deadlock (C14), not a failure of exclusion."""
+    wd = None
+    for l in o.scen.lines:
+        if l.startswith("watchdog "):
+            wd = int(l.split()[1])
+    t = None
+    for ln, tt, _ in o.events:
+        if ln == line:
+            t = tt
+    return wd is None or t is None or t <= wd - 1000
+
+
 def classify(o, prop):
     """-> (observable findings of prop, conformance failures relevant to prop)"""
     obs = [f for f in o.findings if f[0] in (prop, "both")]
@@ -717,7 +732,7 @@ def classify(o, prop):
         if v.get("exclusion"):
             what = ("two Starts on one id inside the critical section" if o.scen.mode == "start" else "two holders of one key")
             obs.append(("C13", "exclusion", "%s: Mx.checkExclusion fails at caller event %d (log line %d)" % (what, v["exclusion"][0], v["exclusion"][1])))
-        if v.get("proviso"):
+        if v.get("proviso") and _within_active_phase(o, v["proviso"][1]):
             obs.append(("C13", "purged-while-held", "the clean-up deleted an entry with locks > 0 although every hold is shorter than the staleness timeout "
                         "(manager event %d, log line %d)" % v["proviso"]))
     if v.get("trace"):
